@@ -60,3 +60,291 @@ Theorem uc_connected_refuted :
   let u := uc_run uc_init [WConnect 0] in
   uc_connected_code u = 0%N /\ uc_connected_spec u = 1%N.
 Proof. vm_compute. split; reflexivity. Qed.
+
+(* ------------------------------------------------------------------ *)
+(* The Roto script of the configuration and the units started by reloads *)
+
+Lemma filter_true {A} (l : list A) : List.filter (fun _ => true) l = l.
+Proof. induction l as [|x l IH]; [reflexivity|]. cbn [List.filter]. rewrite IH. reflexivity. Qed.
+
+Lemma filter_update_none u : filter_update SNone u = u.
+Proof. destruct u as [ps| | |]; try reflexivity. cbn [filter_update script_rejects negb]. rewrite filter_true. reflexivity. Qed.
+
+Lemma filter_update_nofilter u : filter_update SNoRibFilter u = u.
+Proof. destruct u as [ps| | |]; try reflexivity. cbn [filter_update script_rejects negb]. rewrite filter_true. reflexivity. Qed.
+
+(* what a step of the pipeline model does to its RIB is the update it reports *)
+Lemma wstep_rib w o :
+  w_rib (wstep w o).1 = match upd_of (wstep w o).2 with Some u => rib_apply (w_rib w) u | None => w_rib w end.
+Proof.
+  destruct o as [k|k m|k|b|b u|b|af pfx|k]; cbn [wstep].
+  - destruct (find_or_register _ _ _) as [rid r']. reflexivity.
+  - destruct (w_routers w !! k) as [[rid s]|]; [|reflexivity].
+    destruct (sm_step _ _ _ _) as [[r' s'] out]. cbn [fst snd w_rib upd_of].
+    destruct out; reflexivity.
+  - destruct (w_routers w !! k) as [[rid s]|]; reflexivity.
+  - destruct (reg_register _) as [id r']. reflexivity.
+  - destruct (w_bgp w !! b) as [[id c]|]; [|reflexivity]. destruct u; reflexivity.
+  - destruct (w_bgp w !! b) as [[id c]|]; reflexivity.
+  - reflexivity.
+  - reflexivity.
+Qed.
+
+(* ---- which filter a unit runs ---- *)
+
+(* every unit runs the filter of the script named by the load that started it *)
+Definition filters_ok (st : estate) : Prop :=
+  es_scripts st !! ru_born (es_rib st) = Some (ru_filter (es_rib st)) /\
+  forall r, es_rib2 st = Some r -> es_scripts st !! ru_born r = Some (ru_filter r).
+
+Lemma runit_see_filter r out : ru_filter (runit_see r out) = ru_filter r.
+Proof. unfold runit_see. destruct (upd_of out); reflexivity. Qed.
+Lemma runit_see_born r out : ru_born (runit_see r out) = ru_born r.
+Proof. unfold runit_see. destruct (upd_of out); reflexivity. Qed.
+
+Lemma e_step_filters_ok st o : filters_ok st -> filters_ok (e_step false st o).
+Proof.
+  intros [H1 H2]. destruct o as [wo|s|y|]; cbn [e_step].
+  - destruct (wstep (es_w st) wo) as [w' out]. split; cbn [es_scripts es_rib es_rib2].
+    + rewrite runit_see_filter, runit_see_born. exact H1.
+    + intros r Hr. destruct (es_rib2 st) as [r0|]; [|discriminate]. cbn [option_map] in Hr.
+      injection Hr as <-. rewrite runit_see_filter, runit_see_born. apply H2. reflexivity.
+  - split; [exact H1|exact H2].
+  - split; [exact H1|exact H2].
+  - split; cbn [es_scripts es_rib es_rib2].
+    + apply lookup_app_l_Some. exact H1.
+    + intros r Hr.
+      destruct ((es_rib2kind st =? 1)%N && (ef_rib2 (es_file st) =? 1)%N).
+      * apply lookup_app_l_Some. apply H2. exact Hr.
+      * destruct (ef_rib2 (es_file st) =? 1)%N; [|discriminate].
+        injection Hr as <-. cbn [ru_born ru_filter].
+        rewrite lookup_app_r by lia. rewrite Nat.sub_diag. reflexivity.
+Qed.
+
+Lemma e_run_filters_ok h : forall st, filters_ok st -> filters_ok (e_run false st h).
+Proof.
+  induction h as [|o h IH]; intros st H; [exact H|]. cbn [e_run fold_left].
+  apply IH, e_step_filters_ok, H.
+Qed.
+
+Lemma e_init_filters_ok s0 : filters_ok (e_init s0).
+Proof. split; [reflexivity|]. intros r Hr. discriminate. Qed.
+
+(* the bookkeeping list is the history of the scripts the loads named *)
+Lemma e_run_scripts lg h : forall st,
+  es_scripts (e_run lg st h) = es_scripts st ++ scripts_named (ef_script (es_file st)) h.
+Proof.
+  induction h as [|o h IH]; intros st; cbn [e_run fold_left scripts_named].
+  - rewrite app_nil_r. reflexivity.
+  - fold (e_run lg (e_step lg st o) h). rewrite IH. destruct o as [wo|s|y|]; cbn [e_step].
+    + destruct (wstep (es_w st) wo) as [w' out]. reflexivity.
+    + reflexivity.
+    + reflexivity.
+    + cbn [es_scripts es_file]. rewrite <- app_assoc. reflexivity.
+Qed.
+
+Theorem unit_filter_is_script_of_its_load s0 h :
+  let st := e_run false (e_init s0) h in
+  let named := s0 :: scripts_named s0 h in
+  named !! ru_born (es_rib st) = Some (ru_filter (es_rib st)) /\
+  forall r, es_rib2 st = Some r -> named !! ru_born r = Some (ru_filter r).
+Proof.
+  cbn zeta. pose proof (e_run_filters_ok h (e_init s0) (e_init_filters_ok s0)) as H.
+  unfold filters_ok in H. rewrite e_run_scripts in H. exact H.
+Qed.
+
+(* a unit started by a reload starts empty, with the script that reload named *)
+Theorem reload_starts_unit_with_new_script st :
+  (es_rib2kind st =? 1)%N = false -> ef_rib2 (es_file st) = 1%N ->
+  es_rib2 (e_step false st EReload) = Some (MkRunit (ef_script (es_file st)) (length (es_scripts st)) rib_empty).
+Proof.
+  intros Hk Hw. cbn [e_step es_rib2]. rewrite Hk, Hw. reflexivity.
+Qed.
+
+(* a reload leaves a running unit of unchanged name and type alone: its filter
+   and its store are what they were (what the code does; see the report for
+   what that means for an edited script) *)
+Theorem reload_spares_running_units lg st :
+  es_rib (e_step lg st EReload) = es_rib st /\
+  (es_rib2kind st = 1%N -> ef_rib2 (es_file st) = 1%N -> es_rib2 (e_step lg st EReload) = es_rib2 st).
+Proof.
+  split; [reflexivity|]. intros Hk Hw. cbn [e_step es_rib2]. rewrite Hk, Hw. reflexivity.
+Qed.
+
+Lemma e_step_rib_filter lg st o : ru_filter (es_rib (e_step lg st o)) = ru_filter (es_rib st).
+Proof.
+  destruct o as [wo|s|y|]; cbn [e_step]; try reflexivity.
+  destruct (wstep (es_w st) wo) as [w' out]. cbn [es_rib]. apply runit_see_filter.
+Qed.
+
+Theorem first_unit_keeps_startup_filter lg s0 h : ru_filter (es_rib (e_run lg (e_init s0) h)) = s0.
+Proof.
+  assert (H : forall st, ru_filter (es_rib (e_run lg st h)) = ru_filter (es_rib st)).
+  { induction h as [|o h IH]; intros st; [reflexivity|]. cbn [e_run fold_left].
+    fold (e_run lg (e_step lg st o) h). rewrite IH. apply e_step_rib_filter. }
+  rewrite H. reflexivity.
+Qed.
+
+(* ---- no script: the extension is the pipeline model ---- *)
+
+Lemma e_step_w lg st wo : es_w (e_step lg st (EW wo)) = (wstep (es_w st) wo).1.
+Proof. cbn [e_step]. destruct (wstep (es_w st) wo) as [w' out]. reflexivity. Qed.
+
+Definition unfiltered (s : script) : Prop := s = SNone \/ s = SNoRibFilter.
+
+Lemma filter_update_unfiltered s u : unfiltered s -> filter_update s u = u.
+Proof. intros [->| ->]; [apply filter_update_none|apply filter_update_nofilter]. Qed.
+
+Lemma e_step_rib_is_pipe lg st o :
+  unfiltered (ru_filter (es_rib st)) -> ru_rib (es_rib st) = w_rib (es_w st) ->
+  ru_rib (es_rib (e_step lg st o)) = w_rib (es_w (e_step lg st o)).
+Proof.
+  intros Hf Hr. destruct o as [wo|s|y|]; cbn [e_step]; try exact Hr.
+  pose proof (wstep_rib (es_w st) wo) as Hw.
+  destruct (wstep (es_w st) wo) as [w' out]. cbn [fst snd] in Hw. cbn [es_rib es_w].
+  rewrite Hw. unfold runit_see. destruct (upd_of out) as [u|]; [|exact Hr].
+  cbn [runit_apply ru_rib]. rewrite filter_update_unfiltered by exact Hf. rewrite Hr. reflexivity.
+Qed.
+
+Theorem no_filter_is_pipeline_model lg s0 h :
+  unfiltered s0 ->
+  ru_rib (es_rib (e_run lg (e_init s0) h)) = w_rib (es_w (e_run lg (e_init s0) h)).
+Proof.
+  intros Hs.
+  assert (H : forall st, unfiltered (ru_filter (es_rib st)) -> ru_rib (es_rib st) = w_rib (es_w st) ->
+                         ru_rib (es_rib (e_run lg st h)) = w_rib (es_w (e_run lg st h))).
+  { induction h as [|o h IH]; intros st Hf Hr; [exact Hr|]. cbn [e_run fold_left].
+    fold (e_run lg (e_step lg st o) h). apply IH.
+    - rewrite e_step_rib_filter. exact Hf.
+    - apply e_step_rib_is_pipe; assumption. }
+  apply H; [exact Hs|reflexivity].
+Qed.
+
+(* the pipeline model's own world is driven by the traffic alone *)
+Fixpoint traffic (h : list eop) : list wop :=
+  match h with [] => [] | EW o :: t => o :: traffic t | _ :: t => traffic t end.
+
+Lemma e_run_world lg h : forall st,
+  es_w (e_run lg st h) = fold_left (fun w o => (wstep w o).1) (traffic h) (es_w st).
+Proof.
+  induction h as [|o h IH]; intros st; [reflexivity|]. cbn [e_run fold_left].
+  fold (e_run lg (e_step lg st o) h). rewrite IH.
+  destruct o as [wo|s|y|]; cbn [traffic fold_left]; try reflexivity.
+  rewrite e_step_w. reflexivity.
+Qed.
+
+(* ---- a rejected route is never stored ---- *)
+
+Definition clean (r : runit) : Prop :=
+  forall k, is_Some (recs (ru_rib r) !! k) -> script_rejects (ru_filter r) (k_pfx k) = false.
+
+Lemma insert_payload_keys s rb p :
+  script_rejects s (k_pfx (p_key p)) = false ->
+  (forall k, is_Some (recs rb !! k) -> script_rejects s (k_pfx k) = false) ->
+  forall k, is_Some (recs (rib_insert_payload rb p) !! k) -> script_rejects s (k_pfx k) = false.
+Proof.
+  intros Hp Hrb k. unfold rib_insert_payload.
+  destruct (p_active p).
+  - cbn [recs]. destruct (decide (k = p_key p)) as [->|Hne]; [intros _; exact Hp|].
+    rewrite lookup_insert_ne by (intros E; apply Hne; symmetry; exact E). apply Hrb.
+  - destruct (recs rb !! p_key p) as [old|]; [|apply Hrb].
+    cbn [recs]. destruct (decide (k = p_key p)) as [->|Hne]; [intros _; exact Hp|].
+    rewrite lookup_insert_ne by (intros E; apply Hne; symmetry; exact E). apply Hrb.
+Qed.
+
+Lemma fold_insert_keys s ps : forall rb,
+  Forall (fun p => script_rejects s (k_pfx (p_key p)) = false) ps ->
+  (forall k, is_Some (recs rb !! k) -> script_rejects s (k_pfx k) = false) ->
+  forall k, is_Some (recs (fold_left rib_insert_payload ps rb) !! k) -> script_rejects s (k_pfx k) = false.
+Proof.
+  induction ps as [|p ps IH]; intros rb Hall Hrb; [exact Hrb|].
+  cbn [fold_left]. apply IH; [apply (Forall_inv_tail Hall)|].
+  apply insert_payload_keys; [apply (Forall_inv Hall)|exact Hrb].
+Qed.
+
+Lemma fold_withdraw_recs ms : forall rb, recs (fold_left (fun r m => rib_withdraw_mui r m None) ms rb) = recs rb.
+Proof. induction ms as [|m ms IH]; intros rb; [reflexivity|]. cbn [fold_left]. rewrite IH. reflexivity. Qed.
+
+Lemma runit_apply_clean r u : clean r -> clean (runit_apply r u).
+Proof.
+  unfold clean. intros Hc k. cbn [runit_apply ru_rib ru_filter].
+  destruct u as [ps|m f|ms|]; cbn [filter_update rib_apply].
+  - apply fold_insert_keys; [|exact Hc].
+    apply List.Forall_forall. intros p Hin. apply List.filter_In in Hin. destruct Hin as [_ Hin].
+    apply negb_true_iff in Hin. exact Hin.
+  - destruct f; cbn [rib_withdraw_mui recs]; apply Hc.
+  - rewrite fold_withdraw_recs. apply Hc.
+  - apply Hc.
+Qed.
+
+Lemma runit_see_clean r out : clean r -> clean (runit_see r out).
+Proof. unfold runit_see. destruct (upd_of out); [apply runit_apply_clean|exact id]. Qed.
+
+Definition all_clean (st : estate) : Prop := clean (es_rib st) /\ forall r, es_rib2 st = Some r -> clean r.
+
+Lemma e_step_all_clean lg st o : all_clean st -> all_clean (e_step lg st o).
+Proof.
+  intros [H1 H2]. destruct o as [wo|s|y|]; cbn [e_step]; try (split; [exact H1|exact H2]).
+  - destruct (wstep (es_w st) wo) as [w' out]. split; cbn [es_rib es_rib2].
+    + apply runit_see_clean, H1.
+    + intros r Hr. destruct (es_rib2 st) as [r0|]; [|discriminate]. cbn [option_map] in Hr.
+      injection Hr as <-. apply runit_see_clean, H2. reflexivity.
+  - split; cbn [es_rib es_rib2]; [exact H1|]. intros r Hr.
+    destruct ((es_rib2kind st =? 1)%N && (ef_rib2 (es_file st) =? 1)%N); [apply H2, Hr|].
+    destruct (ef_rib2 (es_file st) =? 1)%N; [|discriminate]. injection Hr as <-.
+    intros k [x Hx]. cbn [ru_rib rib_empty recs] in Hx. rewrite lookup_empty in Hx. discriminate.
+Qed.
+
+Theorem rejected_prefix_never_stored lg s0 h :
+  let st := e_run lg (e_init s0) h in
+  (forall k, is_Some (recs (ru_rib (es_rib st)) !! k) -> script_rejects (ru_filter (es_rib st)) (k_pfx k) = false) /\
+  (forall r k, es_rib2 st = Some r -> is_Some (recs (ru_rib r) !! k) -> script_rejects (ru_filter r) (k_pfx k) = false).
+Proof.
+  cbn zeta.
+  assert (H : forall st, all_clean st -> all_clean (e_run lg st h)).
+  { induction h as [|o h IH]; intros st Hc; [exact Hc|]. cbn [e_run fold_left].
+    fold (e_run lg (e_step lg st o) h). apply IH, e_step_all_clean, Hc. }
+  assert (H0 : all_clean (e_init s0)).
+  { split; [|intros r Hr; discriminate]. intros k [x Hx]. cbn in Hx. rewrite lookup_empty in Hx. discriminate. }
+  destruct (H _ H0) as [Ha Hb]. split; [exact Ha|]. intros r k Hr. apply (Hb r Hr).
+Qed.
+
+(* ---- the defect of the code as it was: a configuration without roto_script ---- *)
+Theorem legacy_script_removed_refuted :
+  let h := [EScript SNone; EUnit 1%N; EReload] in
+  let st := e_run true (e_init (SRejectPfx 7)) h in
+  option_map ru_filter (es_rib2 st) = Some (SRejectPfx 7%N) /\
+  last (es_scripts st) = Some SNone /\
+  option_map ru_filter (es_rib2 (e_run false (e_init (SRejectPfx 7)) h)) = Some SNone.
+Proof. vm_compute. repeat split; reflexivity. Qed.
+
+(* the same with the standard library's list access (for statements that do not use std++ notation) *)
+Lemma lookup_nth_error {A} (l : list A) : forall i, l !! i = nth_error l i.
+Proof. induction l as [|x l IH]; intros [|i]; try reflexivity. cbn. apply IH. Qed.
+
+Theorem unit_filter_is_script_of_its_load_nth s0 h :
+  let st := e_run false (e_init s0) h in
+  let named := s0 :: scripts_named s0 h in
+  nth_error named (ru_born (es_rib st)) = Some (ru_filter (es_rib st)) /\
+  forall r, es_rib2 st = Some r -> nth_error named (ru_born r) = Some (ru_filter r).
+Proof.
+  cbn zeta. destruct (unit_filter_is_script_of_its_load s0 h) as [H1 H2]. split.
+  - rewrite <- lookup_nth_error. exact H1.
+  - intros r Hr. rewrite <- lookup_nth_error. apply H2, Hr.
+Qed.
+
+(* non-vacuity: start with a script that rejects prefix 7; the operator edits it to reject prefix 8 and adds rib2;
+   after the reload rib2 filters with the new script and the first unit with the old one *)
+Lemma e2e_example :
+  let st := e_run false (e_init (SRejectPfx 7)) [EScript (SRejectPfx 8); EUnit 1%N; EReload] in
+  ru_filter (es_rib st) = SRejectPfx 7%N /\ option_map ru_filter (es_rib2 st) = Some (SRejectPfx 8%N) /\
+  option_map ru_born (es_rib2 st) = Some 1%nat /\ es_scripts st = [SRejectPfx 7%N; SRejectPfx 8%N].
+Proof. vm_compute. repeat split; reflexivity. Qed.
+
+Theorem legacy_script_removed_refuted_std :
+  let h := [EScript SNone; EUnit 1%N; EReload] in
+  let st := e_run true (e_init (SRejectPfx 7)) h in
+  option_map ru_filter (es_rib2 st) = Some (SRejectPfx 7%N) /\
+  List.last (es_scripts st) SNoRibFilter = SNone /\
+  option_map ru_filter (es_rib2 (e_run false (e_init (SRejectPfx 7)) h)) = Some SNone.
+Proof. vm_compute. repeat split; reflexivity. Qed.
